@@ -70,6 +70,7 @@ Proof. destruct a, b; cbn; intro H; try discriminate; reflexivity. Qed.
 Definition ep_eqb (a b : ep) : bool :=
   Bool.eqb (e_client a) (e_client b) && N.eqb (e_flight a) (e_flight b) && fstate_eqb (e_fst a) (e_fst b) &&
   Bool.eqb (e_retr a) (e_retr b) && Bool.eqb (e_reply a) (e_reply b) && N.eqb (e_lastsent a) (e_lastsent b) &&
+  Bool.eqb (e_sent a) (e_sent b) &&
   N.eqb (e_interval a) (e_interval b) && N.eqb (e_timer a) (e_timer b) && leqb rec_eqb (e_out a) (e_out b) &&
   lfeqb (e_pending a) (e_pending b) && Bool.eqb (e_est a) (e_est b) && Bool.eqb (e_nstinit a) (e_nstinit b) &&
   leqb rec_eqb (e_nst a) (e_nst b) && N.eqb (e_nsti a) (e_nsti b) && N.eqb (e_nstt a) (e_nstt b) &&
